@@ -1,9 +1,10 @@
 (* Extraction of the executable model. ExtrOcamlBasic only; N/Z/positive/nat stay inductive. *)
 From Coq Require Extraction ExtrOcamlBasic.
 From Base Require Import PyStr.
-From Model Require Import Wrap.
+From Model Require Import Wrap RxPort.
 
 Extraction Language OCaml.
 Extraction "model.ml"
   split_ws strip collapse_ws splitlines
-  escape_word wrap_words wrap_ok wrap_paragraph_lines.
+  escape_word wrap_words wrap_ok wrap_paragraph_lines
+  rx_finditer.
